@@ -644,6 +644,38 @@ func ruleC06Flex(c *Ctx) {
 			} else {
 				c.hold("C06.flex", "refgroup", lk.Pos(), "groups[s[1:]] under s[0]=='@' ∧ len(s)>=1")
 			}
+			// every filter returned for @NAME is the group filter on the looked-up group (ancestors included), as --refgroup builds it
+			for _, ret := range returnsOf(flex) {
+				if !lk.Block().Dominates(ret.Block()) {
+					continue
+				}
+				for _, v := range c.resultValues(ret, 0) {
+					if isNilConst(v) {
+						continue
+					}
+					okWrap := false
+					if mi, isMI := v.(*ssa.MakeInterface); isMI && isNamed(mi.X.Type(), modPath+"/internal/refopts", "refGroupFilter") {
+						if u, isU := mi.X.(*ssa.UnOp); isU {
+							if al, isAl := u.X.(*ssa.Alloc); isAl {
+								for _, r := range *al.Referrers() {
+									if fa, isFA := r.(*ssa.FieldAddr); isFA {
+										for _, st := range storesTo(fa) {
+											if st.Val == ssa.Value(lk) {
+												okWrap = true
+											}
+										}
+									}
+								}
+							}
+						}
+					}
+					if okWrap {
+						c.hold("C06.flex", "refgroup:filter", ret.Pos(), "@NAME yields refGroupFilter{groups[NAME]} (the group with its ancestors), the filter --refgroup NAME builds")
+					} else {
+						c.violate("C06.flex", "refgroup:filter", ret.Pos(), name, "@NAME does not yield the refgroup filter of the looked-up group (group and ancestors): --include @G and --refgroup G would select different references")
+					}
+				}
+			}
 		}
 	})
 	if !found {
